@@ -7,7 +7,7 @@ from vcommon import Violation, Inconclusive, CaseInfo
 
 COMP_EXTRA = {
     "gzip": [None, "level=1", "level=9,window=8", "window=12,filtered,huffman", "rle,fixed,default", "level=5,window=15,default,filtered,huffman,rle,fixed"],
-    "xz": [None, "level=0", "dictsize=16384", "x86,arm", "level=3,lc=0,lp=2,pb=0", "extreme,dictsize=8K", "powerpc,ia64,armthumb,sparc"],
+    "xz": [None, "level=0", "dictsize=16384", "x86,arm", "level=3,lc=0,lp=2,pb=0", "extreme,dictsize=8K", "powerpc,ia64,armthumb,sparc", "dictsize=12288", "dictsize=24576"],
     "lzma": [None, "level=1", "dictsize=8K", "lc=4,lp=0,pb=4", "extreme,level=2"],
     "lz4": [None, "hc"],
     "zstd": [None, "level=1", "level=3", "level=19"],
@@ -308,6 +308,11 @@ def check_pack_fidelity(case, scratch, variant="asan", with_validator=True):
         if os.path.exists(out):
             raise Violation("unrepresentable input refused but output file left behind", None, sig="refused-output-left")
         return None, None, r, ["refused_unrepresentable"]
+    if r.rc != 0 and o.get("X_may_be_refused"):
+        # an option value the format does not allow (C03's generator): refusing is right, storing it is judged by the validator
+        if os.path.exists(out):
+            raise Violation("option -X %s refused but output file left behind" % o.get("X"), None, sig="refused-output-left")
+        return None, None, r, ["refused_illegal_option"]
     if r.rc != 0:
         raise Violation("gensquashfs refused a representable input: rc=%d %s" % (r.rc, r.err.decode(errors="replace")[-500:]),
                         None, sig="refused-valid")
